@@ -136,6 +136,17 @@ def mt2(F, R):
         sfd = [tstr(d) for d in ([sf] if sf[0] != "var" else __import__("analysis.dataflow", fromlist=["x"]).var_def_terms(pv, sf[1]))]
         if not (any("Some{add(BlockCount{from(reserved_block_count" in d and "fat_size" in d for d in sfd) and any(d.startswith("None") for d in sfd)):
             problems.append("second_fat_start defs %s" % sfd)
+        if sf[0] == "var":
+            # ... chosen by num_fats == 2 exactly (a single-FAT volume has nothing behind its FAT but the root directory / data)
+            is2 = lambda truth: (lambda g: g.kind == "bool" and g.truth is truth and g.term[0] == "cmp" and g.term[1] == "Eq" and "num_fats(" in tstr(g.term[2]) and g.term[3][:2] == ("c", 2))
+            for dd in pv.defs().get(sf[1], []):
+                if dd[0] != "assign":
+                    continue
+                dv = pv.term_of_rvalue(dd[3], dd[1])
+                if dv[0] == "agg" and dv[2] and dv[2].endswith("Option::Some") and not guarded(pv, dd[1], is2(True))[0]:
+                    problems.append("a second FAT is assumed without BPB_NumFATs == 2 (every FAT update would be mirrored into whatever follows the only FAT)")
+                if dv[0] == "agg" and dv[2] and dv[2].endswith("Option::None") and not guarded(pv, dd[1], is2(False))[0]:
+                    problems.append("no second FAT is assumed although BPB_NumFATs == 2 was not excluded")
         if ft == "Fat32":
             if tmatch(v["first_data_block"], fds) is None:
                 problems.append("FAT32 first_data_block = %s" % tstr(v["first_data_block"]))
